@@ -27,7 +27,16 @@ from simprocesd.model.sensors.part_sensor import OutputPartSensor
 from simprocesd.model.cms.cms import Cms
 
 KINDS = ['source', 'handler', 'processor', 'buffer', 'gate', 'batcher', 'sink', 'maintainer', 'scheduler',
-         'psensor', 'osensor', 'cms']
+         'psensor', 'osensor', 'cms', 'nested']
+
+
+class NestedProc(PartProcessor):
+    '''A user subclass whose constructor builds another asset (a machine that comes with its own sensor): the inner asset
+    gets the LARGER id but is registered FIRST (registration happens when a constructor returns).'''
+
+    def __init__(self, name, target):
+        super().__init__(name, None, 1)
+        self.own_sensor = PeriodicSensor(1, [AttributeProbe('v', target)], name + '_sensor', 2)
 
 
 class SubSystem(System):
@@ -145,6 +154,10 @@ class LifeWorld(CompWorld):
             return OutputPartSensor(p, [AttributeProbe('quality', None)], 0, name)
         if kind == 'cms':
             return Cms(None, name)
+        if kind == 'nested':
+            if self.ref:
+                self.ref[-1].append(name + '_sensor')    # registered before the machine that builds it
+            return NestedProc(name, self.tgt)
         raise HarnessError(kind)
 
     def apply_op(self, label):
@@ -265,6 +278,11 @@ class LifeWorld(CompWorld):
             if s.find_assets() != []:
                 raise Violation('find_assets', 'non-empty result on an empty system')
             return
+        for a in assets:
+            got = s.find_assets(id_=int(str(a.id)))
+            if len(got) != 1 or got[0] is not a:
+                raise Violation('find_assets', f'find_assets(id_={a.id}) -> {[x.name for x in got]}, expected [{a.name}] '
+                                               f'(registered ids in registration order: {[x.id for x in assets]})')
         some = assets[len(assets) // 2]
         # filter values that are falsy but not None are filters too
         for kw in ({'name': ''}, {'id_': 0}, {'subtype': ()}, {'name': '', 'type_': type(some)}, {'id_': 0, 'name': some.name}):
